@@ -10,9 +10,16 @@ guard at the top of `protocols_verif` lets the input through.  The guard itself 
 re-extracted from the C text on every run (tools/translate/verif_guard.py -> SqiGen/VerifGuard.lean); on a tree
 without a guard the translator emits the constant `true`.
 
+The two strategy traversals (`ec_eval_even_strategy`, `theta_chain_comput_strategy_faster_no_eval`) are not re-modelled
+here: the access list embeds engineer a3's C-shaped loop models (`SqiModel.EvenChain`, `SqiModel.ThetaChain`, tied to the C
+by the H3 trace correspondence of C09/C12) and their general theorems make the traversal part a corollary for every admitted
+length. The digit-array conversion uses the limb list of engineer a5's C17 model (`SqiModel.Intbig`).
 Core-only file (linked into the driver).  C anchors are given next to each access.
 -/
 import SqiModel.Strategy
+import SqiModel.EvenChain
+import SqiModel.ThetaChain
+import SqiModel.Intbig
 
 namespace SqiModel.Verify
 
@@ -33,6 +40,8 @@ structure Lvl where
   hintLoQ : Bool
   cols4 : Nat        -- columns of STRATEGY4
   cols2 : Nat        -- columns of strategies
+  evenNaive : Nat → Nat → Nat → Bool   -- guard of `ec_eval_even` (len, TORSION_PLUS_EVEN_POWER, rows): true ⇒ naive chain
+                                       -- (re-read from the C text: SqiGen.EvenGuard.naive, tools/translate/evenguard.py)
   strat4 : List (List Nat)   -- STRATEGY4 (rows)
   strat2 : List (List Nat)   -- strategies (rows)
 
@@ -84,8 +93,9 @@ deriving Repr, DecidableEq
 
 /-- `mpz_sizeinbase(z, 2)` = `ibz_bitsize` -/
 def bitsize (z : Int) : Nat := if z = 0 then 1 else Nat.log2 z.natAbs + 1
-/-- number of 64-bit words `ibz_to_digits` writes (it writes `target[0] = 0` for zero) -/
-def wordsWritten (z : Int) : Nat := if z = 0 then 1 else (bitsize z + 63) / 64
+/-- number of 64-bit words `ibz_to_digits` writes: the limb list of the C17 model of `ibz_to_digit_array`
+    (SqiModel.Intbig.ibzToDigitArray: `mpz_size` limbs of |z|, one zero limb for z = 0) -/
+def wordsWritten (z : Int) : Nat := (if z = 0 then [0] else SqiModel.Intbig.limbs z.natAbs).length
 
 inductive Access where
   | index (what : String) (i : Int) (size : Nat)    -- element `i` of an array/table with `size` elements
@@ -112,91 +122,6 @@ def Access.what : Access → String
 def allOk (l : List Access) : Bool := l.all Access.ok
 def firstBad (l : List Access) : Option Access := l.find? (fun a => !a.ok)
 
-/-! ## strategy traversals (simulation of the index bookkeeping of the two chain routines) -/
-
-/-- isog_chains.c `ec_eval_even_strategy`: returns (final `current`, max `current`, max `strategy` index read) or none
-    if the loop would get stuck / underflow. `eHalf` = number of 4-isogeny steps. The array `XDBLs[current]` is
-    modelled as a stack (`current` = its length: the code only touches `XDBLs[current]` right after `current += 1`
-    and right before `current -= 1`), `BLOCK` as the running sum. All counters are compared at every step, so the
-    kernel evaluates them eagerly. -/
-def sim4Inner (target : Nat) : Nat → Nat → Nat → List Nat → List Nat → Nat → Nat →
-    Option (Nat × Nat × List Nat × List Nat × Nat × Nat)
-  | 0, _, _, _, _, _, _ => none
-  | fuel + 1, block, strategy, rest, stack, maxC, maxS =>
-    if block = target then some (block, strategy, rest, stack, maxC, maxS)
-    else
-      match rest with                                -- `rest` = the row from column `strategy` on
-      | [] => none                                   -- reading past the row
-      | s :: rest' =>
-        let cur := stack.length + 1
-        sim4Inner target fuel (block + s) (strategy + 1) rest' (s :: stack)
-          (if maxC < cur then cur else maxC) (if maxS < strategy then strategy else maxS)
-
-def sim4Outer (eHalf : Nat) : Nat → Nat → Nat → Nat → List Nat → List Nat → Nat → Nat →
-    Option (Nat × Nat × Nat)
-  | 0, _, _, _, _, _, _, _ => none
-  | fuel + 1, j, block, strategy, rest, stack, maxC, maxS =>
-    if j + 1 ≥ eHalf then some (stack.length, maxC, maxS)
-    else
-      match sim4Inner (eHalf - 1 - j) (eHalf + 2) block strategy rest stack maxC maxS with
-      | none => none
-      | some (block', strategy', rest', stack', maxC', maxS') =>
-        match stack' with
-        | [] => none                                 -- `current -= 1` below zero
-        | d :: below =>
-          if block' < d then none                    -- BLOCK underflow
-          else sim4Outer eHalf fuel (j + 1) (block' - d) strategy' rest' below maxC' maxS'
-
-/-- (final `current`, max `current`, max strategy column) of the traversal for `eHalf` steps -/
-def sim4 (row : List Nat) (eHalf : Nat) (_slots : Nat) : Option (Nat × Nat × Nat) :=
-  sim4Outer eHalf (eHalf + 2) 0 0 0 row [] 0 0
-
-/-- theta_isogenies.c `theta_chain_comput_strategy_faster_no_eval`: (max list length needed, max strategy index
-    read) or none when stuck. `m = n - 1 - adjusting`. `level[0..len_list)` is modelled as a stack (last element on
-    top) together with its running sum (`len_count` is recomputed as that sum at every step of the C loop). -/
-def sim2First (row : List Nat) (m bound : Nat) : Nat → Nat → Nat → Nat × Nat
-  | 0, lenCount, index => (lenCount, index)
-  | fuel + 1, lenCount, index =>
-    if lenCount ≠ m ∧ index < bound then sim2First row m bound fuel (lenCount + row.getD index 0) (index + 1)
-    else (lenCount, index)
-
-def sim2Inner (target : Nat) : Nat → Nat → Nat → List Nat → List Nat → Nat → Nat →
-    Option (Nat × Nat × List Nat × List Nat × Nat × Nat)
-  | 0, _, _, _, _, _, _ => none
-  | fuel + 1, lenCount, index, rest, stack, maxL, maxI =>
-    if lenCount = target then some (lenCount, index, rest, stack, maxL, maxI)
-    else
-      match rest with                                -- `rest` = the row from column `index` on
-      | [] => none
-      | s :: rest' =>
-        let len := stack.length + 1
-        sim2Inner target fuel (lenCount + s) (index + 1) rest' (s :: stack)
-          (if maxL < len then len else maxL) (if maxI < index then index else maxI)
-
-def sim2Outer (n adj : Nat) : Nat → Nat → Nat → Nat → List Nat → List Nat → Nat → Nat → Option (Nat × Nat)
-  | 0, _, _, _, _, _, _, _ => none
-  | fuel + 1, i, sum, index, rest, stack, maxL, maxI =>
-    if i + 1 + adj ≥ n then some (maxL, maxI)
-    else
-      if n < i + 2 + adj then none else
-      match sim2Inner (n - i - 2 - adj) (n + 2) sum index rest stack maxL maxI with
-      | none => none
-      | some (sum', index', rest', stack', maxL', maxI') =>
-        match stack' with
-        | [] => none                                 -- `len_list--` below zero
-        | d :: below => if sum' < d then none else sim2Outer n adj fuel (i + 1) (sum' - d) index' rest' below maxL' maxI'
-
-/-- (number of array slots the traversal needs, max strategy column read) for a chain of length `n` -/
-def sim2 (row : List Nat) (n adj : Nat) : Option (Nat × Nat) :=
-  if n < 1 + adj then none else
-  let (lenCount, index) := sim2First row (n - 1 - adj) (n + 10) (n + 10) 0 0
-  if lenCount ≠ n - 1 - adj then none else
-  let lenList := index + 1
-  -- level[0] = 0, level[i] = strategy[i-1] for i < len_list; after the gluing `len_list--` drops the last one
-  let stack := ((row.take index).dropLast).reverse ++ [0]
-  let sum := stack.foldl (· + ·) 0
-  sim2Outer n adj (n + 2) 0 sum index (row.drop index) stack lenList (if index = 0 then 0 else index - 1)
-
 /-! ## the pieces of the verifier body -/
 
 /-- basis.c `ec_curve_to_point_2f_*_from_hint`: `if (hint < thr) x = TABLE[hint]` (thr extracted from the C text) -/
@@ -208,23 +133,32 @@ def fromHint (K : Lvl) (tag : String) (fArg h0 h1 : Int) : List Access :=
   hintAcc K K.hintLoP K.hintThrP (tag ++ ":NQR_TABLE[hint[0]]") h0 ++ hintAcc K K.hintLoQ K.hintThrQ (tag ++ ":Z_NQR_TABLE[hint[1]]") h1 ++
   [.loop (tag ++ ":clear_cofactor doublings POWER_OF_2 - f") ((K.f : Int) - fArg) K.f]
 
-/-- isog_chains.c `ec_eval_even` → `ec_eval_even_strategy(isog_len)` -/
+/-- length stored in `ec_isog_even_t.length` (`unsigned short`) -/
+def lenU16 (isogLen : Int) : Nat := (isogLen % 65536).toNat
+
+/-- isog_chains.c `ec_eval_even(phi)` with `phi->length = (unsigned short) isogLen`: the naive chain when the guard of
+    `ec_eval_even` holds, else `ec_eval_even_strategy` — index / size / loop quantities that do not need the traversal -/
 def evalEven (K : Lvl) (tag : String) (isogLen : Int) : List Access :=
-  let eHalf : Nat := ((isogLen / 2) % (2 : Int) ^ 64).toNat      -- digit_t e_half = isog_len >> 1
-  let tmp := eHalf % 256                                           -- uint8_t tmp = e_half
-  let log2e := 2 * (if tmp = 0 then 0 else Nat.log2 tmp + 1)      -- log2_of_e *= 2
-  let rowIdx : Int := (K.f : Int) - isogLen                        -- STRATEGY4[TORSION_PLUS_EVEN_POWER - isog_len]
-  [ .intval (tag ++ ":isog_len") isogLen,
-    .vla (tag ++ ":SPLITTING_POINTS[log2_of_e]") log2e,
-    .index (tag ++ ":STRATEGY4[row]") rowIdx K.rows4,
-    .loop (tag ++ ":4-isogeny steps e_half-1 (unsigned)") (if eHalf = 0 then (2 : Int) ^ 64 - 1 else (eHalf : Int) - 1) K.f ] ++
-  (if 0 ≤ rowIdx ∧ rowIdx < K.rows4 ∧ 1 ≤ eHalf ∧ eHalf ≤ K.f then
-    match sim4 (K.strat4.getD rowIdx.toNat []) eHalf log2e with
-    | none => [.bad (tag ++ ":STRATEGY4 traversal stuck")]
-    | some (cur, maxC, maxS) =>
-      [ .index (tag ++ ":SPLITTING_POINTS[current]") (max maxC (if isogLen % 2 = 1 then 1 else cur)) log2e,
-        .index (tag ++ ":STRATEGY4[row][strategy]") maxS K.cols4 ]
-   else [])
+  let len := lenU16 isogLen
+  [ .intval (tag ++ ":length (int expression, stored as unsigned short)") isogLen ] ++
+  (if K.evenNaive len K.f K.rows4 then
+    [ .loop (tag ++ ":ec_eval_small_chain steps (naive branch of ec_eval_even)") len K.f,
+      .loop (tag ++ ":ec_eval_small_chain doublings len(len-1)/2") ((len * (len - 1) / 2 : Nat) : Int) (K.f * K.f) ]
+   else
+    let P := SqiModel.EvenChain.mkParams K.strat4 K.f len
+    [ .vla (tag ++ ":SPLITTING_POINTS[log2_of_e], XDBLs[log2_of_e]") P.vla,
+      .index (tag ++ ":STRATEGY4[TORSION_PLUS_EVEN_POWER - isog_len]") P.rowIdx K.rows4,
+      .loop (tag ++ ":4-isogeny steps e_half") P.eHalf K.f ])
+
+/-- the strategy traversal of `ec_eval_even_strategy`: the C-shaped loop model `SqiModel.EvenChain.evalEven` (engineer a3;
+    halts with an error at the first out-of-bounds access of `SPLITTING_POINTS`, `XDBLs`, the row or an unset slot);
+    in bounds for every admitted length by `SqiProps.C09.even_chain_of_rows` -/
+def evalEvenTrav (K : Lvl) (tag : String) (isogLen : Int) : List Access :=
+  let len := lenU16 isogLen
+  if K.evenNaive len K.f K.rows4 then []
+  else match (SqiModel.EvenChain.evalEven K.strat4 K.f len).err with
+    | none => []
+    | some _ => [.bad (tag ++ ":ec_eval_even_strategy traversal faults (SqiModel.EvenChain)")]
 
 /-- ec.c `ec_dbl_iter(n)` -/
 def dblIter (K : Lvl) (tag : String) (n : Int) : List Access := [.loop (tag ++ ":ec_dbl_iter") n K.f]
@@ -236,45 +170,67 @@ def matApp (K : Lvl) (tag : String) (fArg : Int) : List Access :=
     .expo (tag ++ ":ibz_pow(2, f)") fArg (K.radix * K.nwField),
     .digits (tag ++ ":scalars[NWORDS_FIELD] <- entry mod 2^f") ((fArg.toNat + 63) / 64) K.nwField ]
 
-/-- theta_isogenies.c `theta_chain_comput_strategy_faster_no_eval(n, strategies[rowIdx], eight_above)` -/
+/-- theta_isogenies.c `theta_chain_comput_strategy_faster_no_eval(n, strategies[rowIdx], eight_above)`: sizes and the
+    row index (what does not need the traversal) -/
 def thetaChain (K : Lvl) (tag : String) (n rowIdx : Int) (adj : Nat) : List Access :=
   [ .intval (tag ++ ":n") n,
     .vla (tag ++ ":steps[n-1] / malloc((n-1)*sizeof)") (n - 1),
     .vla (tag ++ ":points1[n], points2[n], Q1[n], Q2[n], level[n]") n,
     .index (tag ++ ":strategies[row]") rowIdx K.rows2,
-    .index (tag ++ ":out->steps[n-2]") (n - 2) (n - 1).toNat ] ++
-  (if adj = 2 then [.index (tag ++ ":out->steps[n-4]") (n - 4) (n - 1).toNat] else []) ++
-  (if 0 ≤ rowIdx ∧ rowIdx < K.rows2 ∧ 2 ≤ n ∧ n ≤ K.f then
-    match sim2 (K.strat2.getD rowIdx.toNat []) n.toNat adj with
-    | none => [.bad (tag ++ ":strategies traversal stuck")]
-    | some (slots, maxI) =>
-      [ .index (tag ++ ":points1/Q1/level[len_list]") ((slots : Int) - 1) n.toNat,
-        .index (tag ++ ":strategy[index]") maxI K.cols2 ]
-   else [])
+    .index (tag ++ ":out->steps[n-2]") (n - 2) (n - 1).toNat,
+    .loop (tag ++ ":(2,2)-isogeny steps n") n K.f ] ++
+  (if adj = 2 then [.index (tag ++ ":out->steps[n-4]") (n - 4) (n - 1).toNat] else [])
+
+/-- the strategy traversal of the chain: the C-shaped loop model `SqiModel.ThetaChain.chain` (engineer a3; halts with an
+    error at the first out-of-bounds access of `points1/2`, `Q1/2`, `level`, `steps`, the row, or an unset slot);
+    in bounds for every admitted length and both modes by `SqiProps.C12.chain_strategy_sound` + C18 -/
+def thetaChainTrav (K : Lvl) (tag : String) (n rowIdx : Int) (adj : Nat) : List Access :=
+  if 0 ≤ rowIdx ∧ rowIdx < K.rows2 ∧ 2 ≤ n then
+    match (SqiModel.ThetaChain.chain { row := K.strat2.getD rowIdx.toNat [], n := n.toNat, eightAbove := decide (adj = 0) }).err with
+    | none => []
+    | some _ => [.bad (tag ++ ":theta chain traversal faults (SqiModel.ThetaChain)")]
+  else []
+
+/-- ec.c `ec_ladder3pt`: `NWORDS_FIELD * 64` ladder steps (constant) -/
+def ladder3pt (K : Lvl) : List Access :=
+  [.loop "ec_ladder3pt steps 64*NWORDS_FIELD" ((64 * K.nwField : Nat) : Int) (K.f + 64)]
+
+/-- ec.c `xDBLMUL_bounded`: recoding and main loop over `BITS = 64*NWORDS_FIELD` positions, 3 calls per matrix application -/
+def dblmul3 (K : Lvl) (tag : String) : List Access :=
+  [.loop (tag ++ ":3 x xDBLMUL_bounded main loop BITS") ((3 * (64 * K.nwField) : Nat) : Int) (3 * (K.f + 64))]
 
 /-! ## sqisigndim2 `protocols_verif` body (src/sqisigndim2/ref/sqisigndim2x/sign.c) -/
-def bodyDim2 (K : Lvl) (pk : RawPk) (s : RawSig) : List Access :=
+def cheapDim2 (K : Lvl) (pk : RawPk) (s : RawSig) : List Access :=
   let isogLen : Int := (K.f : Int) - s.bt                 -- phi_chall.length
   let pow : Int := (K.respLen : Int) - s.trl              -- pow_dim2_deg_resp
   let fB : Int := pow + 2 + s.trl                         -- order of the canonical bases
   fromHint K "pk" K.f pk.hint0 pk.hint1 ++
   [ .digits "scal[NWORDS_ORDER] <- chall_coeff" (wordsWritten s.chall) K.nwOrder,
     .index "ec_ladder3pt reads m[NWORDS_FIELD-1] of scal[NWORDS_ORDER]" ((K.nwField : Int) - 1) K.nwOrder ] ++
+  ladder3pt K ++
   dblIter K "backtracking" s.bt ++
   evalEven K "challenge" isogLen ++
   [ .intval "pow_dim2_deg_resp" pow, .intval "pow_dim2_deg_resp + 2" (pow + 2), .intval "pow_dim2_deg_resp+2+two_resp_length" fB ] ++
   fromHint K "chall" fB s.hc0 s.hc1 ++
   fromHint K "aux" fB s.ha0 s.ha1 ++
   dblIter K "B_aux_can x3 (two_resp_length)" s.trl ++
-  matApp K "matrix_application" fB ++
+  matApp K "matrix_application" fB ++ dblmul3 K "matrix_application" ++
   (if s.trl > 0 then
      dblIter K "small chain kernel (pow_dim2_deg_resp+2)" (pow + 2) ++
-     [.loop "ec_eval_small_chain(len = two_resp_length)" s.trl K.f]
+     [ .loop "ec_eval_small_chain(len = two_resp_length) steps" s.trl K.f,
+       .loop "ec_eval_small_chain doublings len(len-1)/2" ((s.trl.toNat * (s.trl.toNat - 1) / 2 : Nat) : Int) (K.f * K.f) ]
    else []) ++
   thetaChain K "chain" pow ((K.f : Int) - pow) 0
 
+/-- the two strategy traversals (listed after the cheap quantities: the order of the list carries no meaning) -/
+def travDim2 (K : Lvl) (_pk : RawPk) (s : RawSig) : List Access :=
+  let pow : Int := (K.respLen : Int) - s.trl
+  evalEvenTrav K "challenge" ((K.f : Int) - s.bt) ++ thetaChainTrav K "chain" pow ((K.f : Int) - pow) 0
+
+def bodyDim2 (K : Lvl) (pk : RawPk) (s : RawSig) : List Access := cheapDim2 K pk s ++ travDim2 K pk s
+
 /-! ## sqisigndim2_heuristic `protocols_verif` body -/
-def bodyHeur (K : Lvl) (pk : RawPk) (s : RawSigH) : List Access :=
+def cheapHeur (K : Lvl) (pk : RawPk) (s : RawSigH) : List Access :=
   let isogLen : Int := (K.heurChall : Int) + s.trl        -- phi_chall.length
   let pow : Int := (K.heurBound : Int) - s.trl            -- pow_dim2_deg_resp
   [ .intval "phi_chall.length" isogLen,
@@ -282,7 +238,7 @@ def bodyHeur (K : Lvl) (pk : RawPk) (s : RawSigH) : List Access :=
     .expo "ibz_pow(2, TORSION - len_chall - two_resp_length)" ((K.f : Int) - K.heurChall - s.trl) K.f ] ++
   (if isogLen ≤ (K.f : Int) - isogLen then [.expo "ibz_pow(2, len_chall + two_resp_length)" isogLen K.f] else []) ++
   fromHint K "pk" K.f pk.hint0 pk.hint1 ++
-  matApp K "matrix_application" K.f ++
+  matApp K "matrix_application" K.f ++ dblmul3 K "matrix_application" ++
   [ .intval "pow_dim2_deg_resp" pow ] ++
   dblIter K "challenge kernel (TORSION - length)" ((K.f : Int) - isogLen) ++
   evalEven K "challenge" isogLen ++
@@ -291,6 +247,23 @@ def bodyHeur (K : Lvl) (pk : RawPk) (s : RawSigH) : List Access :=
   dblIter K "B_aux_can x3 (TORSION - pow_dim2_deg_resp)" ((K.f : Int) - pow) ++
   [ .intval "TORSION - pow_dim2_deg_resp + 2" ((K.f : Int) - pow + 2) ] ++
   thetaChain K "chain" pow ((K.f : Int) - pow + 2) 2
+
+def travHeur (K : Lvl) (_pk : RawPk) (s : RawSigH) : List Access :=
+  let pow : Int := (K.heurBound : Int) - s.trl
+  evalEvenTrav K "challenge" ((K.heurChall : Int) + s.trl) ++ thetaChainTrav K "chain" pow ((K.f : Int) - pow + 2) 2
+
+def bodyHeur (K : Lvl) (pk : RawPk) (s : RawSigH) : List Access := cheapHeur K pk s ++ travHeur K pk s
+
+/-- iterations of the modelled loops (for the total-work bound `verify_total_work_*`) -/
+def Access.work : Access → Nat
+  | .loop _ c _ => c.toNat
+  | _ => 0
+def totalWork (l : List Access) : Nat := (l.map Access.work).sum
+/-- the bound a loop access is compared with -/
+def Access.cap : Access → Nat
+  | .loop _ _ m => m
+  | _ => 0
+def totalCap (l : List Access) : Nat := (l.map Access.cap).sum
 
 /-- model of the whole function: the body runs only if the range guard lets the input through -/
 def verifyAccessesDim2 (K : Lvl) (guard : Lvl → RawPk → RawSig → Bool) (pk : RawPk) (s : RawSig) : List Access :=
